@@ -187,6 +187,11 @@ pub struct Ctx {
     fam_name: String,
     fam_bound: String,
     sample_every: u64,
+    /// careful mode (crash isolation): cases up to this number were already run by a worker that died
+    pub resume_after: Option<u64>,
+    /// careful mode: file that always names the case being run
+    pub progress_path: Option<String>,
+    last_ckpt: Instant,
 }
 
 impl Ctx {
@@ -205,6 +210,21 @@ impl Ctx {
             fam_name: String::new(),
             fam_bound: String::new(),
             sample_every: 1,
+            resume_after: None,
+            progress_path: None,
+            last_ckpt: Instant::now(),
+        }
+    }
+    /// careful mode: record the case about to run (so that a dying worker leaves a witness) and
+    /// checkpoint the summary from time to time
+    pub fn announce(&mut self, case: impl FnOnce() -> Value) {
+        if let Some(p) = &self.progress_path {
+            let v = json!({"case_no": self.case_no(), "case": case()});
+            let _ = std::fs::write(p, v.to_string());
+            if self.last_ckpt.elapsed() > Duration::from_secs(3) {
+                let _ = std::fs::write(format!("{}.ckpt", p.trim_end_matches(".progress")), serde_json::to_string(&self.sum).unwrap_or_default());
+                self.last_ckpt = Instant::now();
+            }
         }
     }
     /// deterministic sharding: every enumerated case calls this once; true = this worker runs it
@@ -212,6 +232,11 @@ impl Ctx {
     pub fn mine(&mut self) -> bool {
         let c = self.counter;
         self.counter += 1;
+        if let Some(r) = self.resume_after {
+            if c <= r {
+                return false;
+            }
+        }
         self.replaying || (c.wrapping_add(self.seed)) % self.nshards == self.shard
     }
     pub fn case_no(&self) -> u64 {
@@ -361,6 +386,11 @@ pub trait Prop {
     fn run(&self, ctx: &mut Ctx);
     /// re-run the oracle on one recorded case (same code path as the explorer); violations go to ctx
     fn replay(&self, case: &Value, ctx: &mut Ctx);
+    /// crash isolation: the worker announces every case; when it dies (abort, stack overflow, allocation failure)
+    /// the parent records the announced case as a violation `abort` and restarts the shard after it
+    fn careful(&self) -> bool {
+        false
+    }
     /// optional hook run once in the parent before workers start (e.g. build the adlt binary)
     fn prepare(&self, _tier: Tier) -> Result<(), String> {
         Ok(())
@@ -415,45 +445,66 @@ pub fn parent_main(prop: &dyn Prop, tier: Tier, seed: u64) -> i32 {
     let exe = std::env::current_exe().unwrap();
     let tmpdir = format!("{}/target-mc/tmp", verif_dir());
     std::fs::create_dir_all(&tmpdir).ok();
+    let careful = prop.careful();
+    let spawn = |i: usize, out: &str, resume: Option<u64>| {
+        let mut c = std::process::Command::new(&exe);
+        c.arg(meta.id).arg(tier.name()).arg("--worker").arg(format!("{i}/{n}")).arg("--out").arg(out).env("VERIF_SEED", seed.to_string()).stdout(std::process::Stdio::null());
+        if let Some(r) = resume {
+            c.arg("--resume-after").arg(r.to_string());
+        }
+        if careful {
+            c.stderr(std::process::Stdio::null());
+        }
+        c.spawn().expect("spawn worker")
+    };
     let mut children = vec![];
     for i in 0..n {
         let out = format!("{tmpdir}/{}-{}-{}.{}.json", meta.id, tier.name(), std::process::id(), i);
         let _ = std::fs::remove_file(&out);
-        let child = std::process::Command::new(&exe)
-            .arg(meta.id)
-            .arg(tier.name())
-            .arg("--worker")
-            .arg(format!("{i}/{n}"))
-            .arg("--out")
-            .arg(&out)
-            .env("VERIF_SEED", seed.to_string())
-            .stdout(std::process::Stdio::null())
-            .spawn()
-            .expect("spawn worker");
+        let child = spawn(i, &out, None);
         children.push((i, out, child));
     }
     let mut total = Summary::default();
     let mut machinery_err = false;
     for (i, out, mut child) in children {
-        let st = child.wait().expect("wait worker");
-        match std::fs::read_to_string(&out) {
-            Ok(s) if st.success() => {
-                let s: Summary = serde_json::from_str(&s).expect("worker summary");
-                total.merge(s);
-            }
-            _ => {
-                // a dying worker is a machinery failure unless the property handles aborts itself
-                // (those run their subject in sub-subprocesses)
-                eprintln!(
-                    "MACHINERY-ERROR property={} worker {i}/{n} died: {st:?}, progress file: {}",
-                    meta.id,
-                    std::fs::read_to_string(format!("{out}.progress")).unwrap_or_default()
-                );
-                machinery_err = true;
+        let mut restarts = 0;
+        loop {
+            let st = child.wait().expect("wait worker");
+            match std::fs::read_to_string(&out) {
+                Ok(s) if st.success() => {
+                    let s: Summary = serde_json::from_str(&s).expect("worker summary");
+                    total.merge(s);
+                    break;
+                }
+                _ => {
+                    let progress = std::fs::read_to_string(format!("{out}.progress")).ok().and_then(|p| serde_json::from_str::<Value>(&p).ok());
+                    if careful && restarts < 200 {
+                        if let Some(p) = progress {
+                            // the worker died while running the announced case: that is the verdict for this case
+                            if let Some(ck) = std::fs::read_to_string(format!("{out}.ckpt")).ok().and_then(|c| serde_json::from_str::<Summary>(&c).ok()) {
+                                total.merge(ck);
+                            }
+                            let _ = std::fs::remove_file(format!("{out}.ckpt"));
+                            let case_no = p["case_no"].as_u64().unwrap_or(0);
+                            let mut part = Summary::default();
+                            let disc = format!("{st}");
+                            part.violations.insert(format!("abort|{disc}"), ViolationRec { clause: "abort".into(), disc, count: 1, case: p["case"].clone(), detail: format!("worker process died while running this case ({st})"), case_no });
+                            total.merge(part);
+                            restarts += 1;
+                            let _ = std::fs::remove_file(format!("{out}.progress"));
+                            child = spawn(i, &out, Some(case_no));
+                            continue;
+                        }
+                    }
+                    eprintln!("MACHINERY-ERROR property={} worker {i}/{n} died: {st:?}, progress: {:?}", meta.id, progress);
+                    machinery_err = true;
+                    break;
+                }
             }
         }
         let _ = std::fs::remove_file(&out);
         let _ = std::fs::remove_file(format!("{out}.progress"));
+        let _ = std::fs::remove_file(format!("{out}.ckpt"));
     }
     if machinery_err {
         return 2;
@@ -563,10 +614,14 @@ pub fn finish(meta: &Meta, tier: Tier, seed: u64, total: Summary, wall: f64, nwo
     1
 }
 
-pub fn worker_main(prop: &dyn Prop, tier: Tier, seed: u64, shard: u64, nshards: u64, out: &str) -> i32 {
+pub fn worker_main(prop: &dyn Prop, tier: Tier, seed: u64, shard: u64, nshards: u64, out: &str, resume_after: Option<u64>) -> i32 {
     let meta = prop.meta(tier);
     let budget = tier.pick(meta.budget_s.0, meta.budget_s.1);
     let mut ctx = Ctx::new(tier, shard, nshards, seed, budget);
+    ctx.resume_after = resume_after;
+    if prop.careful() {
+        ctx.progress_path = Some(format!("{out}.progress"));
+    }
     prop.run(&mut ctx);
     std::fs::write(out, serde_json::to_string(&ctx.sum).unwrap()).expect("write summary");
     0
